@@ -181,6 +181,19 @@ def PPc.drained : PPc → Bool
   | .setDone | .eLock | .eNotify | .eUnlock | .dropDone | .fLock | .fNotify | .fUnlock | .done => true
   | _ => false
 
+/-- `Tiles a cs b`: the claimed ranges `cs`, in claim order, partition `[a, b)` into consecutive non-empty ranges, each
+of exactly the requested length -/
+inductive Tiles : Nat → List (Nat × Nat × Nat) → Nat → Prop
+  | nil (a) : Tiles a [] a
+  | cons {a lo hi cnt rest b} : lo = a → 1 ≤ cnt → hi + 1 = lo + cnt → Tiles (hi + 1) rest b →
+      Tiles a ((lo, hi, cnt) :: rest) b
+
+theorem Tiles.snoc {a b : Nat} {cs : List (Nat × Nat × Nat)} (h : Tiles a cs b) (hi cnt : Nat)
+    (hc : 1 ≤ cnt) (he : hi + 1 = b + cnt) : Tiles a (cs ++ [(b, hi, cnt)]) (hi + 1) := by
+  induction h with
+  | nil a => exact Tiles.cons rfl hc he (Tiles.nil _)
+  | cons h1 h2 h3 _ ih => exact Tiles.cons h1 h2 h3 (ih he)
+
 /-- producer-local invariant -/
 structure PInv (s : St) (p : Prod) : Prop where
   minLe    : ∀ d, d < ngate s → p.min ≤ gate s d
@@ -198,6 +211,8 @@ structure PInv (s : St) (p : Prod) : Prop where
                (p.pc = .publish → p.w = p.stop + 1)
   drained  : p.pc.drained = true → ∀ d, d < ngate s → p.nextWrite - 1 ≤ gate s d
   wrote    : p.written = List.range' 0 (if p.pc = .write ∨ p.pc = .publish then p.w else p.nextWrite)
+  cnt      : (p.pc = .gateCheck ∨ p.pc = .gateLoad) → 1 ≤ p.count ∧ p.stop + 1 = p.start + p.count
+  tiles    : Tiles 0 p.claims (if p.pc = .gateCheck ∨ p.pc = .gateLoad then p.start else p.nextWrite)
 
 def PInvAll (x : PSt) : Prop := Inv x.s ∧ 0 < x.s.K ∧ PInv x.s x.p ∧ (∀ b, b ∈ x.p.todo → 1 ≤ b)
 
@@ -231,19 +246,22 @@ theorem range_snoc0 (w : Nat) : List.range' 0 w ++ [w] = List.range' 0 (w + 1) :
 
 macro "pstep" : tactic => `(tactic| (constructor <;> (try simp only [PPc.idle, PPc.draining, PPc.drained]) <;> grind [ngate, gate]))
 
+set_option maxHeartbeats 1000000 in
 theorem prod_own_step (x : PSt) (h : PInvAll x) : PInv (stepProd x).s (stepProd x).p := by
-  obtain ⟨hI, hK, ⟨h1, h2, h3, h4, h5, h6, h6c, h7, h8, h9, h10⟩, hb⟩ := h
+  obtain ⟨hI, hK, ⟨h1, h2, h3, h4, h5, h6, h6c, h7, h8, h9, h10, h11, h12⟩, hb⟩ := h
   have hpos := ngate_pos x.s hI.1 hK
   have hsn := range_snoc0 x.p.w
   cases hpc : x.p.pc <;> simp only [stepProd, hpc] <;>
-    simp only [hpc, PPc.idle, PPc.draining, PPc.drained] at h6 h6c h9 h10 h3 h4 h5 h7 h8
+    simp only [hpc, PPc.idle, PPc.draining, PPc.drained] at h6 h6c h9 h10 h3 h4 h5 h7 h8 h11 h12
   case start =>
     cases htodo : x.p.todo with
     | nil => simp only []; pstep
     | cons b rest =>
       have hb1 := hb b (by simp [htodo])
       simp only []; pstep
-  case gateCheck => split <;> pstep
+  case gateCheck =>
+    have htile := Tiles.snoc (by simpa using h12) x.p.stop x.p.count (h11 (by simp)).1 (h11 (by simp)).2
+    split <;> pstep
   case gateLoad =>
     split
     · have := load_step_accLe x.s x.p.acc x.p.idx (h3 (by simp)) (h4 (by simp))
@@ -283,7 +301,7 @@ theorem prod_own_step (x : PSt) (h : PInvAll x) : PInv (stepProd x).s (stepProd 
 theorem pinv_stable (s s' : St) (p : Prod) (hp : PInv s p)
     (hn : ngate s' = ngate s) (hm : ∀ d, gate s d ≤ gate s' d) (hc : s'.cursor = s.cursor) (hnn : s'.n = s.n) :
     PInv s' p := by
-  obtain ⟨h1, h2, h3, h4, h5, h6, h6c, h7, h8, h9, h10⟩ := hp
+  obtain ⟨h1, h2, h3, h4, h5, h6, h6c, h7, h8, h9, h10, h11, h12⟩ := hp
   constructor
   · intro d hd; exact Nat.le_trans (h1 d (by omega)) (hm d)
   · intro d hd; exact Nat.le_trans (h2 d (by omega)) (hm d)
@@ -295,6 +313,8 @@ theorem pinv_stable (s s' : St) (p : Prod) (hp : PInv s p)
   · grind
   · grind
   · intro hp d hd; exact Nat.le_trans (h9 hp d (by omega)) (hm d)
+  · grind
+  · grind
   · grind
 
 theorem gate_mono_stepC (s : St) (k j : Nat) (hk : k < s.K) (hj : j < s.h k) (hI : Inv s) (d : Nat) :
@@ -312,7 +332,7 @@ theorem gate_mono_stepC (s : St) (k j : Nat) (hk : k < s.K) (hj : j < s.h k) (hI
   · simp only [hh, if_false]; exact Nat.le_refl _
 
 theorem cursor_mono_prod (x : PSt) (h : PInvAll x) : x.s.cursor ≤ (stepProd x).s.cursor := by
-  obtain ⟨hI, hK, ⟨h1, h2, h3, h4, h5, h6, h6c, h7, h8, h9, h10⟩, hb⟩ := h
+  obtain ⟨hI, hK, ⟨h1, h2, h3, h4, h5, h6, h6c, h7, h8, h9, h10, h11, h12⟩, hb⟩ := h
   cases hpc : x.p.pc <;> simp only [stepProd, hpc] <;> (try split) <;> (try split) <;> grind
 
 theorem cons_same_prod (x : PSt) : (stepProd x).s.cons = x.s.cons ∧ (stepProd x).s.K = x.s.K ∧
@@ -364,6 +384,7 @@ theorem inv_init (n K : Nat) (h : Nat → Nat) (blocking : Bool) (batches : List
   · intro k j hk hj
     constructor <;> simp [mk, dep]
   · constructor <;> simp [mk, gate, PPc.idle, PPc.draining, PPc.drained]
+    exact Tiles.nil 0
 
 /-! ## consequences: stage chain, no-lap -/
 
